@@ -40,9 +40,9 @@ class C20(Check):
     thorough_examples = 10000
     chunk = 600
     rule = (
-        "cases: operation/call histories of up to 8 steps over 2 endpoints x 3 methods (one never patched): add(result | error | callback, "
+        "cases: operation/call histories of up to 9 steps over 2 endpoints x 3 methods (one never patched): add(result | error | callback, "
         "once on/off), replace(existing index), remove(endpoint, method) / remove(endpoint) (existing only), reset, call (positional / named / "
-        "absent params, ids incl. 0 and '' via hand-built request texts), batch call (1..3 elements incl. unpatched methods); passthrough "
+        "absent params, ids incl. 0 and '' via hand-built request texts), batch call (1..3 elements incl. unpatched methods), plus structured scenarios (2..3 patches on one pair, a replace at a chosen index, then a full rotation of calls); passthrough "
         "on/off; sync and async targets (harness client classes patched through PjRpcMocker(target=...); the shipped PjRpcRequestsMocker "
         "shortcut for a share of the sync runs). Oracle: a model endpoint -> (method -> list of patches) + recorded calls: a call is answered "
         "by the head patch, which rotates to the tail unless `once`; exhausted lists disappear; the reply carries the request id and the "
@@ -83,9 +83,19 @@ class C20(Check):
             st.builds(lambda e, els: ['batch', e, [list(x) for x in els]], s_ep,
                       st.lists(st.tuples(st.sampled_from([0, 0, 1, 2]), s_params), min_size=1, max_size=3)),
         )
+        # structured scenario: several patches on one pair, a replace / remove at a chosen position, then a full rotation of calls
+        def scenario(e, m, patches, onces, idx, newp, newonce, extra):
+            ops = [['add', e, m, p, o] for p, o in zip(patches, onces)]
+            ops.append(['replace', e, m, idx, newp, newonce] if extra != 'remove' else ['call', e, m, [1], 1])
+            ops += [['call', e, m, [n], n] for n in range(len(patches) + 2)]
+            return ops
+        s_scenario = st.builds(scenario, s_ep, st.sampled_from([0, 1]), st.lists(s_patch, min_size=2, max_size=3),
+                               st.lists(st.sampled_from([False, False, True]), min_size=3, max_size=3), st.integers(0, 2), s_patch, st.booleans(),
+                               st.sampled_from(['replace', 'replace', 'remove']))
+        s_ops = st.one_of(st.lists(s_op, min_size=2, max_size=8), st.lists(s_op, min_size=2, max_size=8), s_scenario)
         return st.builds(
             lambda t, pt, ops: {'target': t, 'passthrough': pt if t != 'requests' else False, 'ops': [list(o) for o in ops]},
-            st.sampled_from(['sync', 'sync', 'async', 'async', 'requests']), st.booleans(), st.lists(s_op, min_size=2, max_size=8),
+            st.sampled_from(['sync', 'sync', 'async', 'async', 'requests']), st.booleans(), s_ops,
         )
 
     def corpus(self):
